@@ -61,6 +61,16 @@ var Types = []TypeInfo{
 	{Name: "rpm", SigType: "rpm", Fixture: "rocky-basesystem-11-13.el9.noarch.rpm", Pgp: true},
 	{Name: "pgp-detached", SigType: "pgp", Fixture: "Release", Pgp: true, Query: map[string]string{"armor": "true"}, Detached: true, OutExt: ".asc"},
 	{Name: "pgp-clearsign", SigType: "pgp", Fixture: "Release", Pgp: true, Query: map[string]string{"clearsign": "true"}, OutExt: ".clear"},
+	{Name: "pgp-inline", SigType: "pgp", Fixture: "Release", Pgp: true, Query: map[string]string{"inline": "true"}, OutExt: ".gpg"},
+}
+
+// AltQuery: the alternative signer option set of a type (rounds with alt = TRUE)
+var AltQuery = map[string]map[string]string{
+	"msi":    {"no-extended-sig": "true"},
+	"pe-dll": {"page-hashes": "true"},
+	"pe-exe": {"page-hashes": "true"},
+	"jar":    {"sections-only": "true", "inline-signature": "true"},
+	"vsix":   {"detach-certs": "true"},
 }
 
 func TypeByName(n string) *TypeInfo {
